@@ -157,7 +157,15 @@ func Verif_C07_Many(npkg, ngen, ntype int) {
 			if !ok {
 				continue
 			}
-			verifsym.Assert(vHasSub(d, "GENERATED BY gengo:"+g+" ") || vHasSub(d, "GENERATED BY gengo:"+g+"\n"), "a generated file does not name its generator in the header")
+			// the header is whatever precedes the package clause; its wording is not prescribed
+			hdr := d
+			for i := 0; i+9 <= len(d); i++ {
+				if d[i:i+9] == "\npackage " {
+					hdr = d[:i]
+					break
+				}
+			}
+			verifsym.Assert(vHasSub(hdr, g), "a generated file does not name its generator in the header")
 			last := -1
 			for _, tn := range sorted {
 				idx := vDeclIndex(d, tn, g)
